@@ -9,7 +9,7 @@ from vt import worlds
 
 ID = 'C15'
 LEVEL = 'exploration'
-RULE = ('trees = every subset of <=K entries of a 29-entry menu (sources, directories nested inside __pycache__ and ignored directories, '
+RULE = ('trees = every subset of <=K entries of a 33-entry menu (sources, directories nested inside __pycache__ and ignored directories, '
         'orphaned and non-orphaned .pyc/.pyo, look-alike names, __pycache__, '
         'ignored and non-identifier directories, a sub package) materialised '
         'on tmpfs x option vectors (-k, --usecompiled, --path/--test-path, two '
@@ -21,8 +21,8 @@ ASSUMPTIONS = [
     'orphans in directories the clean-up walk reaches but discovery does not (node_modules, non-identifier names) and the bare names ".pyc"/".pyo" may or may not be deleted - the statement does not settle them',
     'symlinks are outside the stated quantifier and outside the alphabet',
 ]
-BOUND = {'quick': 'K<=3 of 29 entries and K=4 of the 12 flat names x 13 option vectors (3 of them with layer subprocesses)',
-         'thorough': 'K<=5 of 29 entries and K=6 of the 12 flat names x 13 option vectors'}
+BOUND = {'quick': 'K<=3 of 33 entries and K=4 of the 12 flat names x 14 option vectors (3 of them with layer subprocesses)',
+         'thorough': 'K<=5 of 33 entries and K=6 of the 12 flat names x 14 option vectors'}
 CHUNK = 64
 
 MENU = ['x.py', 'x.pyc', 'x.pyo', 'y.pyc', 'z.pyo', '.pyc', 'pyc', 'X.PYC',
@@ -35,7 +35,10 @@ MENU = ['x.py', 'x.pyc', 'x.pyo', 'y.pyc', 'z.pyo', '.pyc', 'pyc', 'X.PYC',
         # sibling directory whose path starts with another search path
         '__pycache__/nest/n.pyc', 'sub/__pycache__/deep/m.pyo',
         '.git/inner/i.pyc', 'sub_compat/c.pyc', 'sub_compat/c2.py',
-        'sub_compat/c2.pyc']
+        'sub_compat/c2.pyc',
+        # the same base name in a directory searched later (x.py lives in the
+        # root), and a directory whose name looks like a shell pattern
+        'sub/x.pyc', 'sub/deep/x.pyo', 'da[t]a/o.pyc', 'da[t]a/inner/p.pyo']
 CORE = 12        # the flat names at the front of the menu
 OPTS = {
     'path': lambda r: ['--path', r],
@@ -53,6 +56,8 @@ OPTS = {
     # two sibling search paths, one a string prefix of the other
     'siblings': lambda r: ['--test-path', os.path.join(r, 'sub'), '--test-path', os.path.join(r, 'sub_compat')],
     'siblings_rev': lambda r: ['--path', os.path.join(r, 'sub_compat'), '--path', os.path.join(r, 'sub')],
+    # a user-supplied ignore_dir that contains pattern characters
+    'ignore_br': lambda r: ['--path', r, '--ignore_dir', 'da[t]a'],
     'siblings_mixed': lambda r: ['--path', os.path.join(r, 'sub_compat'), '--test-path', os.path.join(r, 'sub')],
 }
 SEARCHED = {'siblings': ('sub/', 'sub_compat/'), 'siblings_rev': ('sub/', 'sub_compat/'),
@@ -116,6 +121,8 @@ def classify(entries, ok):
         if '__pycache__' in parts or any(p in IGNORED for p in parts):
             continue
         if ok == 'ignore_sub' and 'sub' in parts:
+            continue
+        if ok == 'ignore_br' and 'da[t]a' in parts:
             continue
         sib = os.path.join(d, base[:-1])
         if sib in files:
